@@ -356,7 +356,7 @@ def report_violation(prop, ent, master, tier):
                                        max_runs=prop.minimize_runs)
     except Exception:
         mini, runs = case, -1
-    name = '%s-%s.json' % (prop.id, ent['seed'])
+    name = '%s-%s-%s.json' % (prop.id, ent['seed'], v['oracle'][:40])
     path = os.path.join(REPLAY_DIR, name)
     doc = {'property': prop.id, 'oracle': v['oracle'], 'message': v['msg'],
            'facts': v.get('facts'), 'run_seed': ent['seed'],
